@@ -95,7 +95,13 @@ impl Handle {
             Self::Clone { mut handle, tmp } => {
                 log::debug!(target: "worker", "{} cloning from {remote}", handle.local());
                 let result = radicle_fetch::clone(&mut handle, limit, remote)?;
-                mv(tmp, storage, &rid)?;
+                // N.b. a clone that failed validation leaves storage as it was: the
+                // temporary repository is removed when `tmp` is dropped. Moving it
+                // into place would leave an empty, identity-less repository behind,
+                // and every later fetch of `rid` would then fail to open it.
+                if result.is_success() {
+                    mv(tmp, storage, &rid)?;
+                }
                 (result, true, None)
             }
             Self::Pull {
